@@ -651,10 +651,10 @@ class LocalConcurrences:
                     for (x, y) in path:
                         xx = x + 1
                         for yy in range(max(miny, y + 1 - buffer), min(maxy, y + 1 + buffer)):
-                            wp[xx, yy] = -wp[xx, yy]  # ma.masked
+                            wp[xx, yy] = -abs(wp[xx, yy])  # ma.masked
                         yy = y + 1
                         for xx in range(max(minx, x + 1 - buffer), min(maxx, x + 1 + buffer)):
-                            wp[xx, yy] = -wp[xx, yy]  # ma.masked
+                            wp[xx, yy] = -abs(wp[xx, yy])  # ma.masked
             if lcm is not None:
                 ki += 1
                 yield lcm
